@@ -4,9 +4,14 @@
 
   [F] theorems: exact statements in any linear ordered field (they idealise f64 rounding).
   [S] theorems: structural, valid for `Float`.
-  Not carried by a theorem: interior-ness for second-order / PSD / nonsymmetric cones after
-  the composite minimum (needs the cone step lengths of C15 and cone convexity); the harness
-  oracle `traj.margin` exercises it on every observed iterate.
+  [R] theorems: real analysis (exp / log / rpow), also idealising rounding.
+
+  Round 3 (section "composite cones" at the end): interior-ness after the composite minimum is now
+  carried by theorems for zero / nonnegative / second-order (any dimension) / exponential / power
+  cones at full strength (`interior_preserved`, `all_iterates_interior*`), for PSD cones in the
+  scaled space under C15's spectral contract, and for generalised power cones only up to the
+  cone's own accepted candidates (`interior_preserved_mixed`; the stepped point would need
+  convexity of that cone).  f64 rounding stays with the harness oracle `traj.margin`.
 -/
 import ClarabelProofs.Lemmas.LoopPrefix
 import ClarabelProofs.Lemmas.LoopStep
@@ -14,6 +19,12 @@ import ClarabelProofs.Lemmas.LoopSoc
 import ClarabelProofs.Props.C15
 import ClarabelProofs.Lemmas.SolverModelPrefix
 import ClarabelProofs.Lemmas.SolverModelExample
+import ClarabelProofs.Lemmas.StepKInterior
+import ClarabelProofs.Lemmas.StepKInit
+import ClarabelProofs.Lemmas.StepKMixed
+import ClarabelProofs.Lemmas.StepKAccept
+import ClarabelProofs.Lemmas.LoopSwitch
+import ClarabelProofs.Lemmas.StepKTotal
 
 namespace Clarabel.C07
 open Clarabel Clarabel.Loop Clarabel.Loop.Step
@@ -261,4 +272,377 @@ example : (run 0).toOption.map (fun r => r.traj.head?.map (fun p => (p.vars.x.to
 
 end fullExamples
 
+end Clarabel.C07
+
+/-! ## Round 3: composite cones — `calc_step_length` + `add_step` keep every iterate interior
+
+Model: `ClarabelModel/StepK.lean` (`StepK.calcStepLength`, `StepK.addStep`, `StepK.acceptStep`: the
+functions the channel `vars.step_k` compares bit for bit with `DefaultVariables::calc_step_length`
+/ `add_step` over composites of all seven cone kinds).  The per-cone facts are C15's
+(`Props/C15.lean`) and C14's (`*_unit_initialization_central`); helper lemmas:
+`Lemmas/StepK{Interior,Init,Mixed,Accept}.lean`. -/
+namespace Clarabel.C07
+open Clarabel Clarabel.StepK Clarabel.Loop Clarabel.Loop.Step
+
+/-- [R] `C07.interior_preserved`: let `(s, z, τ, κ)` be interior — `τ, κ > 0` and every block
+strictly inside `K × K*` (`Pt.Interior`: zero, nonnegative, second-order of any dimension,
+exponential, power cones with `0 < a < 1`, in any combination and order) — and let the direction
+be of the right shape, otherwise arbitrary.  Then the value `α` of
+`calc_step_length(Combined)` with `0 < max_step_fraction = f < 1` satisfies
+`0 ≤ α ≤ f · min(1, ατ, ακ) ≤ f`, moreover `α ≤ f²` when a nonsymmetric cone is present, and for
+every `0 ≤ a ≤ α` (so also for what `backtrack_step_to_barrier` makes of `α`) the iterate
+`(s + a ds, z + a dz, τ + a dτ, κ + a dκ)` produced by `add_step` is interior again. -/
+theorem interior_preserved (maxValue : ℝ) (ls : LineSearch ℝ) (hs0 : 0 ≤ ls.step) (hs1 : ls.step ≤ 1)
+    (hmax : 0 < maxValue) (p : Pt ℝ) (hI : p.Interior) (hD : p.DirOk) (f α : ℝ) (hf0 : 0 < f)
+    (hf1 : f < 1) (h : StepK.calcStepLength maxValue ls p true f = .ok α) :
+    0 ≤ α ∧ α ≤ f * alphaMax p.τ p.κ p.dτ p.dκ maxValue ∧
+      alphaMax p.τ p.κ p.dτ p.dκ maxValue ≤ 1 ∧
+      (p.blks.all Blk.symmetric = false → α ≤ f * f) ∧
+      ∀ a, 0 ≤ a → a ≤ α → (StepK.addStep p a).Interior :=
+  StepK.interior_step maxValue ls hs0 hs1 hmax p hI hD f α hf0 hf1 h
+
+/-- [R] no panic: from an interior iterate over zero / nonnegative / second-order cones (any
+dimension) and any direction of the right shape, `calc_step_length` returns a value — the SOC line
+search's `panic!("starting point of line search not in SOC")` is unreachable. -/
+theorem calc_step_length_total_symmetric (maxValue : ℝ) (ls : LineSearch ℝ) (hs0 : 0 ≤ ls.step)
+    (hs1 : ls.step ≤ 1) (hmax : 0 < maxValue) (p : Pt ℝ) (hI : p.Interior) (hD : p.DirOk)
+    (hk : ∀ b ∈ p.blks, b.SymKind) (combined : Bool) (f : ℝ) (hf0 : 0 ≤ f) :
+    ∃ α, StepK.calcStepLength maxValue ls p combined f = .ok α :=
+  StepK.calcStepLength_ok_symmetric maxValue ls hs0 hs1 hmax p hI hD hk combined f hf0
+
+/-- [R] the affine step length (no `max_step_fraction`) from an interior iterate is in `[0, 1]` -/
+theorem affine_step_in_unit (maxValue : ℝ) (ls : LineSearch ℝ) (hs0 : 0 ≤ ls.step) (hs1 : ls.step ≤ 1)
+    (hmax : 0 < maxValue) (p : Pt ℝ) (hI : p.Interior) (hD : p.DirOk) (f α : ℝ) (hf0 : 0 < f)
+    (hf1 : f < 1) (h : StepK.calcStepLength maxValue ls p false f = .ok α) :
+    0 ≤ α ∧ α ≤ alphaMax p.τ p.κ p.dτ p.dκ maxValue ∧ α ≤ 1 :=
+  StepK.affine_step_bounds maxValue ls hs0 hs1 hmax p hI hD f α hf0 hf1 h
+
+/-- [R] `C07.interior_preserved`, all seven cone kinds: covered blocks as above; **PSD** blocks
+under C15's spectral contract (`PsdContract`: `Λisqrt = Λ^{-1/2} > 0`, the two LAPACK answers are
+the least eigenvalues of the scaled directions) stay positive definite *in the scaled space*
+(`Λ + a·mat(W Δz) ≻ 0`, `Λ + a·mat(W⁻ᵀ Δs) ≻ 0`); for **generalised power** blocks the step `a` is
+below two candidates accepted by that cone's own search, which lie in the open cones
+(`Blk.After`).  `τ + a dτ > 0`, `κ + a dκ > 0` and `0 ≤ α ≤ f·min(1, ατ, ακ)` as before. -/
+theorem interior_preserved_mixed (maxValue : ℝ) (ls : LineSearch ℝ) (hs0 : 0 ≤ ls.step)
+    (hs1 : ls.step ≤ 1) (hmax : 0 < maxValue) (p : Pt ℝ) (hτ : 0 < p.τ) (hκ : 0 < p.κ)
+    (hok : ∀ b ∈ p.blks, b.StepOk)
+    (hgp : ∀ al z s dz ds, Blk.genpow al z s dz ds ∈ p.blks → ∀ x ∈ al.toList, 0 < x)
+    (f α : ℝ) (hf0 : 0 < f) (hf1 : f < 1) (h : StepK.calcStepLength maxValue ls p true f = .ok α) :
+    0 ≤ α ∧ α ≤ f * alphaMax p.τ p.κ p.dτ p.dκ maxValue ∧
+      ∀ a, 0 ≤ a → a ≤ α → 0 < addStepScalar p.τ p.dτ a ∧ 0 < addStepScalar p.κ p.dκ a ∧
+        ∀ b ∈ p.blks, b.After ls a :=
+  StepK.mixed_step maxValue ls hs0 hs1 hmax p hτ hκ hok hgp f α hf0 hf1 h
+
+/-- [R] `C07.init_interior` (symmetric problems): after `symmetric_initialization` — the shift of
+`s` and of `z` to the cone interior, `τ = κ = 1` — applied to **any** output of the initial KKT
+solve, the iterate over zero / nonnegative / second-order cones is interior. -/
+theorem init_interior_symmetric (specs : List Composite.Spec) (x z s : Array ℝ)
+    (hs : ∀ sp ∈ specs, Composite.SymSpec sp) (hz : Composite.totalNumel specs ≤ z.size)
+    (hss : Composite.totalNumel specs ≤ s.size) :
+    ∃ z' s' pz ps, Composite.shiftToConeInterior specs s true = .ok s' ∧
+      Composite.shiftToConeInterior specs z false = .ok z' ∧ Composite.cut specs z' = .ok pz ∧
+      Composite.cut specs s' = .ok ps ∧ (⟨x, #[], blksOf pz ps, 1, 1, 0, 0⟩ : Pt ℝ).Interior :=
+  StepK.symmetric_init_interior specs x z s hs hz hss
+
+/-- [R] `C07.init_interior` (problems with a nonsymmetric cone): after `unit_initialization`
+the iterate is interior with `τ = κ = 1` (zero / nonnegative / second-order / exponential / power
+cones in any combination). -/
+theorem init_interior_unit (p : Pt ℝ) (h : ∀ b ∈ p.blks, b.UnitShape) :
+    ∃ p', StepK.unitInitialization p = .ok p' ∧ p'.Interior ∧ p'.τ = 1 ∧ p'.κ = 1 :=
+  StepK.unit_init_interior p h
+
+/-- [R] `C07.step_in_unit` on `calc_step_length`'s actual output: a pass that reaches `add_step`
+from an interior iterate (`AcceptedPass`: any direction of the right shape; `α` from
+`calc_step_length`; `a = α` or a barrier back-track of `α`; `strategy_checkpoint_small_step(a) =
+NoUpdate`) has `0 < a`, `min_terminate_step_length < a ≤ α ≤ f·min(1, ατ, ακ) ≤ f < 1`, and the new
+iterate is interior: every accepted step is a feasible interior step of length in `(0, 1)`. -/
+theorem accepted_step_interior {c : StepCfg} (hc : c.Ok) {cfg : Loop.Config ℝ} {sc : Loop.Scaling}
+    {p p' : Pt ℝ} (h : AcceptedPass c cfg sc p p') (hI : p.Interior) :
+    p'.Interior ∧ ∃ q α a, Pt.SamePoint p q ∧ p' = StepK.addStep q a ∧
+      StepK.calcStepLength c.maxValue c.ls q true c.f = .ok α ∧
+      0 < a ∧ cfg.minTerminateStepLength < a ∧ a ≤ α ∧
+      α ≤ c.f * alphaMax q.τ q.κ q.dτ q.dκ c.maxValue ∧ α ≤ c.f ∧ a < 1 :=
+  h.interior hc hI
+
+/-- [R] `C07.all_iterates_interior`: by induction over the passes of the loop — `add_step` after
+an accepted pass, `reset_to_prev_iterate` back to the previous iterate, every other pass leaves the
+iterate alone (`Traj`) — every iterate of a solve that starts from an interior point is interior,
+whatever directions (of the right shape) the numerics supply. -/
+theorem all_iterates_interior {c : StepCfg} (hc : c.Ok) {cfg : Loop.Config ℝ} {p0 : Pt ℝ}
+    (h0 : p0.Interior) {l : List (Pt ℝ)} (h : Traj c cfg p0 l) : ∀ p ∈ l, p.Interior :=
+  h.interior hc h0
+
+/-- [R] …from `unit_initialization` (problems with exponential / power cones next to zero /
+nonnegative / second-order cones): every iterate of every solve is interior. -/
+theorem all_iterates_interior_unit {c : StepCfg} (hc : c.Ok) {cfg : Loop.Config ℝ} (p p0 : Pt ℝ)
+    (hsh : ∀ b ∈ p.blks, b.UnitShape) (h0 : StepK.unitInitialization p = .ok p0)
+    {l : List (Pt ℝ)} (h : Traj c cfg p0 l) : ∀ q ∈ l, q.Interior := by
+  obtain ⟨p', e, hI, _, _⟩ := StepK.unit_init_interior p hsh
+  rw [h0] at e
+  cases e
+  exact h.interior hc hI
+
+/-- [R] …from `symmetric_initialization` (zero / nonnegative / second-order cones): every iterate
+of every solve is interior, for any output `(x, s, z)` of the initial KKT solve. -/
+theorem all_iterates_interior_symmetric {c : StepCfg} (hc : c.Ok) {cfg : Loop.Config ℝ}
+    (specs : List Composite.Spec) (x z s : Array ℝ) (hs : ∀ sp ∈ specs, Composite.SymSpec sp)
+    (hz : Composite.totalNumel specs ≤ z.size) (hss : Composite.totalNumel specs ≤ s.size) :
+    ∃ z' s' pz ps, Composite.shiftToConeInterior specs s true = .ok s' ∧
+      Composite.shiftToConeInterior specs z false = .ok z' ∧ Composite.cut specs z' = .ok pz ∧
+      Composite.cut specs s' = .ok ps ∧
+      ∀ l, Traj c cfg (⟨x, #[], blksOf pz ps, 1, 1, 0, 0⟩ : Pt ℝ) l → ∀ q ∈ l, q.Interior := by
+  obtain ⟨z', s', pz, ps, e1, e2, c1, c2, hI⟩ := StepK.symmetric_init_interior specs x z s hs hz hss
+  exact ⟨z', s', pz, ps, e1, e2, c1, c2, fun l hl => hl.interior hc hI⟩
+
+/-! ### step acceptance and NaN ([S]: every scalar type, `Float` included) -/
+section nan
+set_option linter.unusedSectionVars false
+variable {α : Type} [Add α] [Sub α] [Mul α] [Div α] [Neg α] [LT α] [LE α] [DecidableLT α]
+  [DecidableLE α] [BEq α] [OfNat α 0] [OfNat α 1] [OfNat α 2] [OfNat α 3] [OfNat α 4]
+  [OfScientific α] [FloatLike α]
+
+/-- [S] `add_step` is reached exactly when `strategy_checkpoint_small_step` answers `NoUpdate` -/
+theorem add_step_iff_no_update (cfg : Loop.Config α) (sc : Loop.Scaling) (p : Pt α) (a : α) :
+    (acceptStep cfg sc p a).isSome = true ↔ cpSmallStep cfg a sc = .NoUpdate :=
+  StepK.acceptStep_iff cfg sc p a
+
+/-- [S] the NaN observation.  A step length for which both comparisons of the checkpoint are
+false (`¬ a < min_switch_step_length`, `¬ a ≤ max(0, min_terminate_step_length)` — true of every
+IEEE NaN) is **accepted**: the checkpoint answers `NoUpdate`, leaves the status alone, and
+`add_step(a)` is executed.  `step_in_unit` (`0 < a`) is an ordered-field statement and does not
+exclude this at `Float`. -/
+theorem nan_step_length_accepted (cfg : Loop.Config α) (sc : Loop.Scaling) (st : Loop.Status)
+    (p : Pt α) (a : α) (h1 : ¬ a < cfg.minSwitchStepLength)
+    (h2 : ¬ a ≤ fmax 0 cfg.minTerminateStepLength) :
+    cpSmallStep cfg a sc = .NoUpdate ∧ cpSmallStepStatus cfg a st sc = st ∧
+      acceptStep cfg sc p a = some (StepK.addStep p a) :=
+  ⟨(StepK.cpSmallStep_unordered cfg a sc st h1 h2).1, (StepK.cpSmallStep_unordered cfg a sc st h1 h2).2,
+    StepK.acceptStep_unordered cfg sc p a h1 h2⟩
+
+/-- [S] …on the loop skeleton: with both KKT solves reported successful, such a step length takes
+the pass to `save_prev_iterate` / `add_step`; the iterate becomes `step vars pass a`. -/
+theorem nan_step_reaches_add_step (cfg : Loop.Config α) (o : PassOracle α) (st1 : State α)
+    (hk : o.kktAffOk = true ∧ o.kktCombOk = true) (h1 : ¬ o.alpha < cfg.minSwitchStepLength)
+    (h2 : ¬ o.alpha ≤ fmax 0 cfg.minTerminateStepLength) :
+    ∃ st', passKkt cfg o st1 = .cont st' ∧ st'.vars = .step st1.vars (st1.passes - 1) o.alpha ∧
+      st'.alpha = o.alpha ∧ st'.prevVars = st1.vars ∧ st'.saved = true :=
+  StepK.unordered_step_reaches_add_step cfg o st1 hk h1 h2
+
+/-- [S] whether `add_step` is ever reached with a NaN: `calc_step_length` cannot produce one
+before its last multiplication.  If `fmin` ignores a NaN argument (`MinIgnoresNaN`, true of
+`f64::min` and proved for the model's `Float` instance below) and `1` is not NaN, then for **any**
+iterate and direction — NaN / infinite entries included — the value is `m` (affine) resp.
+`m · max_step_fraction` (combined) with `m` not NaN.  Hence a NaN step length requires
+`max_step_fraction` itself to be NaN or `m · max_step_fraction = ∞ · 0`; with a finite positive
+`max_step_fraction` the value handed to the checkpoint is never NaN (the *iterate* can still
+become NaN through a NaN direction: `0.99 · NaN`). -/
+theorem calc_step_length_nan_free (hmin : MinIgnoresNaN α) (h1 : FloatLike.isNaN (1 : α) = false)
+    (maxValue : α) (ls : LineSearch α) (p : Pt α) (combined : Bool) (f a : α)
+    (h : StepK.calcStepLength maxValue ls p combined f = .ok a) :
+    ∃ m, FloatLike.isNaN m = false ∧ a = if combined then m * f else m :=
+  StepK.calcStepLength_nan hmin h1 maxValue ls p combined f a h
+
+/-- [S] cutting `(z, s)` into the cones' ranges commutes with `add_step`: the flat vectors after
+the block-wise `add_step` are `axpby(a, d·, 1)` of the flat vectors — `DefaultVariables::add_step`,
+the function the channel `vars.add_step` compares bit for bit. -/
+theorem add_step_blockwise (p : Pt α) (a : α)
+    (hz : ∀ b ∈ p.blks, b.zList.length = b.dzList.length)
+    (hs : ∀ b ∈ p.blks, b.sList.length = b.dsList.length) :
+    (StepK.addStep p a).zFlat = axpbyL a p.zFlat p.dzFlat ∧
+      (StepK.addStep p a).sFlat = axpbyL a p.sFlat p.dsFlat :=
+  StepK.addStep_flat p a hz hs
+
+end nan
+
+/-- [S] the model's `Float` minimum (Rust `f64::min`) ignores a NaN argument -/
+theorem float_min_ignores_nan : MinIgnoresNaN Float := StepK.float_minIgnoresNaN
+
+/-! ### non-vacuity -/
+section examples3
+
+/-- an interior iterate with a nonnegative, a second-order, an exponential and a power block -/
+noncomputable def exPt : Pt ℝ :=
+  { x := #[0], dx := #[1],
+    blks := [.nn #[1, 2] #[3, 1] #[-1, 0] #[0, -2], .soc #[2, 1] #[3, 0] #[0, 1] #[-1, 0],
+             .exp (-1, 1, 1) (-1, 1, 1) (0, 0, 0) (0, 0, 0),
+             .pow (1 / 2) (1 / 2, 1 / 2, 0) (1, 1, 0) (0, 0, 0) (0, 0, 0)],
+    τ := 1, κ := 1, dτ := -2, dκ := 1 }
+
+example : exPt.Interior ∧ exPt.DirOk := by
+  refine ⟨⟨one_pos, one_pos, ?_⟩, ?_⟩
+  · intro b hb
+    simp only [exPt, List.mem_cons, List.not_mem_nil, or_false] at hb
+    rcases hb with rfl | rfl | rfl | rfl
+    · refine ⟨rfl, ?_, ?_⟩ <;> (intro v hv; simp at hv; rcases hv with rfl | rfl <;> norm_num)
+    · refine ⟨2, [1], 3, [0], rfl, rfl, ?_, ?_⟩ <;> (constructor <;> norm_num [Soc.dotL_cons])
+    · constructor
+      · refine ⟨by norm_num, by norm_num, ?_⟩
+        have : Real.exp (1 / -1 - 1) < 1 := Real.exp_lt_one_iff.mpr (by norm_num)
+        linarith
+      · refine ⟨by norm_num, by norm_num, ?_⟩
+        have : Real.exp (-1 / 1) < 1 := Real.exp_lt_one_iff.mpr (by norm_num)
+        linarith
+    · refine ⟨by norm_num, by norm_num, ⟨by norm_num, by norm_num, ?_⟩, ⟨by norm_num, by norm_num, ?_⟩⟩
+      · norm_num
+      · norm_num
+  · intro b hb
+    simp only [exPt, List.mem_cons, List.not_mem_nil, or_false] at hb
+    rcases hb with rfl | rfl | rfl | rfl
+    · exact ⟨rfl, rfl⟩
+    · exact ⟨rfl, rfl⟩
+    · trivial
+    · trivial
+
+/-- `exNN` (below) is made of symmetric blocks only -/
+example : ∀ b ∈ ([.nn #[1] #[1] #[-1] #[-1], .soc #[2, 1] #[3, 0] #[0, 1] #[-1, 0]] : List (Blk ℝ)),
+    b.SymKind := by
+  intro b hb
+  simp only [List.mem_cons, List.not_mem_nil, or_false] at hb
+  rcases hb with rfl | rfl <;> trivial
+
+/-- the settings of the solver's defaults meet `StepCfg.Ok` -/
+example : (⟨100, ⟨4 / 5, 1 / 10000, 100⟩, 99 / 100, 4 / 5⟩ : StepCfg).Ok := by
+  refine ⟨by norm_num, by norm_num, by norm_num, by norm_num, by norm_num, by norm_num, by norm_num⟩
+
+/-- shapes covered by `init_interior_unit` -/
+example : ∀ b ∈ exPt.blks, b.UnitShape := by
+  intro b hb
+  simp only [exPt, List.mem_cons, List.not_mem_nil, or_false] at hb
+  rcases hb with rfl | rfl | rfl | rfl
+  · rfl
+  · exact ⟨by decide, by decide⟩
+  · trivial
+  · exact ⟨by norm_num, by norm_num⟩
+
+/-- `calc_step_length` on one nonnegative block `z = s = (1)`, `dz = ds = (−1)`, `τ = κ = 1`,
+`dτ = dκ = 0`: the cone allows `1`, the combined step is `max_step_fraction = 0.99` -/
+noncomputable def exNN : Pt ℝ :=
+  { x := #[], dx := #[], blks := [.nn #[1] #[1] #[-1] #[-1]], τ := 1, κ := 1, dτ := 0, dκ := 0 }
+
+/-- [R] non-vacuity helper: the value of `calc_step_length` on `exNN` -/
+theorem exNN_calc : StepK.calcStepLength (100 : ℝ) ⟨4 / 5, 1 / 10000, 100⟩ exNN true (99 / 100)
+    = .ok (99 / 100) := by
+  simp only [StepK.calcStepLength, exNN, coneStep, alphaMax, ratio, Composite.stepLength,
+    Composite.inner, List.map_cons, List.map_nil, Blk.coneFn, List.foldlM_cons, List.foldlM_nil,
+    Nonneg.stepLength, Nonneg.stepComponent, Nonneg.ratio, List.all_cons, List.all_nil, bind,
+    Except.bind, pure, Except.pure]
+  norm_num [FloatLike.fmin]
+
+/-- an accepted pass (and hence a two-point trajectory) exists -/
+example : ∃ cfg : Loop.Config ℝ, ∃ p', AcceptedPass ⟨100, ⟨4 / 5, 1 / 10000, 100⟩, 99 / 100, 4 / 5⟩ cfg
+    .PrimalDual exNN p' := by
+  let t : Loop.Tols ℝ := ⟨0, 0, 0, 0, 0, 0⟩
+  refine ⟨⟨10, 0, false, t, t, 1 / 10, 1 / 10000, true, true, true⟩, StepK.addStep exNN (99 / 100),
+    exNN, 99 / 100, 99 / 100, ?_, ?_, exNN_calc, Or.inl rfl, ?_⟩
+  · refine ⟨rfl, rfl, rfl, ?_⟩
+    exact List.Forall₂.cons (Blk.SamePoint.nn _ _ _ _ _ _) List.Forall₂.nil
+  · intro b hb
+    simp only [exNN, List.mem_singleton] at hb
+    subst hb; exact ⟨rfl, rfl⟩
+  · simp only [acceptStep, cpSmallStep]
+    norm_num [FloatLike.fmax]
+
+/-- a PSD block under the spectral contract: `n = 1`, `λ = R = R⁻¹ = Λisqrt = 1`, `Δz = Δs = (−2)` -/
+example : (Blk.psd (⟨1, #[1], #[1], #[1], #[1], #[]⟩ : PsdTri.Cone ℝ) (some (-2)) (some (-2)) #[1] #[1]
+    #[-2] #[-2]).StepOk := by
+  refine ⟨-2, -2, rfl, rfl, by decide, ?_, ?_, ?_⟩
+  · intro i hi
+    have hi' : i < 1 := hi
+    have : i = 0 := by omega
+    subst this; simp
+  · intro d h
+    simp [PsdTri.mulW, PsdTri.mulWx, PsdTri.sizeGuard, PsdIndex.triangularNumber, PsdTri.mulWxInner,
+      PsdTri.matToSvec, PsdTri.packed, PsdTri.gemm, PsdTri.mm, PsdTri.tr, PsdTri.matOf,
+      PsdTri.svecToMat, PsdTri.sumN, PsdTri.isZero, bind, Except.bind, pure, Except.pure] at h
+    subst h
+    refine ⟨?_, fun _ => 1, ?_, ?_⟩
+    · intro v
+      simp [PsdStep.nrm2, PsdStep.qform, PsdStep.scaledDir, PsdTri.svecToMat, PsdIndex.triangularNumber]
+      linarith
+    · simp [PsdStep.nrm2]
+    · simp [PsdStep.nrm2, PsdStep.qform, PsdStep.scaledDir, PsdTri.svecToMat, PsdIndex.triangularNumber]
+  · intro d h
+    simp [PsdTri.mulWinv, PsdTri.mulWx, PsdTri.sizeGuard, PsdIndex.triangularNumber, PsdTri.mulWxInner,
+      PsdTri.matToSvec, PsdTri.packed, PsdTri.gemm, PsdTri.mm, PsdTri.tr, PsdTri.matOf,
+      PsdTri.svecToMat, PsdTri.sumN, PsdTri.isZero, bind, Except.bind, pure, Except.pure] at h
+    subst h
+    refine ⟨?_, fun _ => 1, ?_, ?_⟩
+    · intro v
+      simp [PsdStep.nrm2, PsdStep.qform, PsdStep.scaledDir, PsdTri.svecToMat, PsdIndex.triangularNumber]
+      linarith
+    · simp [PsdStep.nrm2]
+    · simp [PsdStep.nrm2, PsdStep.qform, PsdStep.scaledDir, PsdTri.svecToMat, PsdIndex.triangularNumber]
+
+/-- the hypotheses of the NaN theorems are met by ordinary numbers too (over `ℝ`: a step above
+both thresholds) — and by no ordered-field element that `step_in_unit` excludes -/
+example : ¬ ((99 / 100 : ℝ) < 1 / 10) ∧ ¬ ((99 / 100 : ℝ) ≤ fmax 0 (1 / 10000)) := by
+  constructor <;> norm_num [FloatLike.fmax]
+
+end examples3
+
+end Clarabel.C07
+
+/-! ## Round 3: reproducibility with strategy switches (loop skeleton, nonsymmetric cones) -/
+namespace Clarabel.C07
+open Clarabel Clarabel.Loop
+
+section switches
+set_option linter.unusedSectionVars false
+variable {α : Type} [Mul α] [Div α] [Neg α] [OfNat α 0] [OfNat α 1]
+  [LT α] [DecidableLT α] [LE α] [DecidableLE α] [BEq α] [FloatLike α]
+
+/-- [S] a pass that changes the scaling strategy happens only for nonsymmetric cones, only
+`PrimalDual → Dual`, and does **not** execute `add_step`: the iterate is left as it is, or (the
+insufficient-progress checkpoint) rolled back to `prev_vars`.  So the symbolic iterate
+`Iter.step … pass a` returned under a budget counts accepted steps only. -/
+theorem switch_pass_keeps_iterate (cfg : Config α) (o : PassOracle α) (st st' : State α)
+    (h : pass cfg o st = .cont st') (hsw : st'.scaling ≠ st.scaling) :
+    cfg.symmetric = false ∧ st.scaling = .PrimalDual ∧ st'.scaling = .Dual ∧
+      (st'.vars = st.vars ∨ st'.vars = st.prevVars) :=
+  Loop.switch_pass cfg o st st' h hsw
+
+/-- [S] `C07.prefix` for problems with nonsymmetric cones (`cones.is_symmetric() = false`, strategy
+switches possible): the budget enters through `check_termination` only, so the run with budget
+`k ≤ k'` goes through the same passes — including the same switches `PrimalDual → Dual` at the same
+passes: the common top-of-pass state `sk` of `PrefixRel.budget` carries `scaling` and the
+checkpoint log — and returns the iterate of `sk`. -/
+theorem prefix_loop_nonsymmetric (cfg : Config α) (hns : cfg.symmetric = false) (k' : Nat)
+    (hk : cfg.maxIter ≤ k') (z : α) (os : List (PassOracle α)) (s : State α)
+    (h : loop cfg os (initState cfg z) = .done s) :
+    PrefixRel cfg k' os (initState cfg z) s ∧ (withBudget cfg k').symmetric = false :=
+  ⟨prefix_loop cfg k' hk z os s h, hns⟩
+
+end switches
+
+/-! non-vacuity, evaluated by the kernel at `Int`: a nonsymmetric problem whose first pass ends in
+the small-step switch `Update(Dual)` (α = 1 < min_switch_step_length = 5) and whose later passes
+accept α = 9.  Budget 2 stops after 3 passes with the iterate `step (start) 1 9` (one `add_step`,
+from pass 1; the switch pass 0 contributed none); budget 3 goes through the same three passes —
+same switch — and one more. -/
+section switchExample
+open Clarabel.Solver.Example
+attribute [local instance] intFloatLike
+
+def swT : Tols Int := ⟨0, 0, 0, 0, 0, 0⟩
+def swCfg (k : Nat) : Config Int :=
+  { maxIter := k, timeLimit := 100, verbose := false, full := swT, reduced := swT,
+    minSwitchStepLength := 5, minTerminateStepLength := 0, symmetric := false, allowsPD := true }
+def swOrc (alpha : Int) : PassOracle Int :=
+  { dotBz := 0, dotQx := 0, mu := 1, costPrimal := 1, costDual := 1, resPrimal := 1, resDual := 1,
+    resPrimalInf := 1, resDualInf := 1, gapAbs := 1, gapRel := 1, ktratio := 2, solveTime := 0,
+    scaleOk := true, kktAffOk := true, alphaAff := 1, sigma := 1, kktCombOk := true, alpha := alpha }
+def swOs : List (PassOracle Int) := [swOrc 1, swOrc 9, swOrc 9, swOrc 9, swOrc 9]
+def swSumm (r : Outcome (Result Int)) : Option (Status × Nat × Nat × List (Option Checkpoint)) :=
+  match r with
+  | .done r => some (r.status, r.iterations, r.passes, r.log.map (·.smallStep))
+  | _ => none
+
+example : swSumm (solve (swCfg 2) 0 swOs)
+    = some (.MaxIterations, 2, 3, [some (.Update .Dual), some .NoUpdate, none]) := by decide
+example : swSumm (solve (swCfg 3) 0 swOs)
+    = some (.MaxIterations, 3, 4, [some (.Update .Dual), some .NoUpdate, some .NoUpdate, none]) := by
+  decide
+example : withBudget (swCfg 2) 3 = swCfg 3 := rfl
+
+end switchExample
 end Clarabel.C07
